@@ -7,6 +7,7 @@ NOTE = ("Trusted: Lean 4.33 kernel; axioms propext/Classical.choice/Quot.sound o
         "std/http/httparse/url behaviour is modelled, not verified (DESIGN §9).")
 TECH = "kernel-checked Lean 4 theorems over a hand-written executable model + differential correspondence with the crate + Lean oracle on the implementation's traces"
 claimed = {
+ "C01": "PARTIAL (C01_spec_partial): every phase of an exchange has its own for-every-schedule theorem (C02_schedule/C02_render head, C03_wire/C04_total body, C11_* handshake, C05_prefix/C05_exact head, C07/C08_len body, C09_edges, C10_step) plus C01_queries_pure (read-only queries change nothing) and C01_head_prefix (nothing consumed before the head is complete). The composed statement over a whole-exchange driver is not proved; whole exchanges are executed on the crate under 12 (quick) / 24 (thorough) schedules each — 1-byte arrivals, buffers smaller than a line or chunk, queries interleaved — and must agree with each other, with the model, and consume exactly the response message(s).",
  "C02": "Theorems C02_step (each call emits the maximal run of whole lines that fits, OutputOverflow exactly when not even the next line fits, nothing changes then), C02_schedule (after any sequence of buffer sizes the bytes emitted are exactly the first k units), C02_render (complete => exactly request line, every effective header line, empty line), C02_after. Host/framing exactly-once: oracle + correspondence.",
  "C03": "Theorems C03_wire / C03_after_finish / C03_finished_iff: for every sequence of (input, buffer) writes the emitted bytes are complete non-empty chunks carrying exactly the consumed input, with the terminator exactly when finished. Correspondence: the same writes on the real crate (exhaustive small scope, boundary-directed, random) must match the model line by line; an independent chunk decoder judges the implementation's own output.",
  "C04": "Theorems C04_copy / refuse_over / refuse_after / direct / total / finished: min-of-three copy, refusal without side effect, 'accounted <= N' invariant over all op sequences, finished only at exactly N and always once N is reached and signalled.",
@@ -38,7 +39,7 @@ for pid in sorted(claimed):
       "level_claimed": {"category": "proof", "text": claimed[pid], "design_ref": "DESIGN.md §8 " + pid},
       "level_note": NOTE,
       "technique": TECH})
-na = [{"property_id": p["id"], "reason": "check not registered yet in this commit (framework under construction; to be claimed — DESIGN §10 build order)"} for p in props if p["id"] not in claimed]
+na = [{"property_id": p["id"], "reason": "not claimed"} for p in props if p["id"] not in claimed]
 m = {"version": 1,
  "setup_cmd": "cd /verif/lean && lake build && cd /verif/harness && cargo build --release --offline",
  "hooks": {"guard": "hoot_verif", "enable": "none needed: every observable is reachable through the public API; the harness is a separate crate with a path dependency on /repo", "baseline_off_cmd": "cd /repo && cargo test --workspace --no-fail-fast --offline", "source_commits": [], "add_only": True},
